@@ -136,6 +136,36 @@ def lookupP : PTree → Bytes → LRes
     else if matchLen p ep = ep.length then lookupP c (p.drop ep.length)
     else .notPresent
 
+/-- the key of the missing node a lookup runs into (`getNode` records it in the trie's missing-key list) -/
+def lookupMiss : PTree → Bytes → Option Bytes
+  | .empty, _ => none
+  | .missing k, _ => some k
+  | .leaf _ _, _ => none
+  | .full _ _, [] => none
+  | .full ch _, c :: r =>
+    match nibOf c with
+    | none => none
+    | some i => if (ch i).isEmpty then none else lookupMiss (ch i) r
+  | .ext ep c, p =>
+    if matchLen p ep = 0 then none
+    else if matchLen p ep = ep.length then lookupMiss c (p.drop ep.length)
+    else none
+
+/-- node reads (`getNode` calls) of an undisturbed `iterate` over the partial tree: every node is read once, a missing
+    one included; `iterate` checks its context before each read -/
+def reads : PTree → Nat
+  | .empty => 0
+  | .missing _ => 1
+  | .leaf _ _ => 1
+  | .full ch _ => 1 + ((List.finRange 16).map (fun i => reads (ch i))).sum
+  | .ext _ c => 1 + reads c
+
+/-- `iterate` under a context that is cancelled right after the `n`-th node read: the next call of `iterate` returns the
+    context's error, which every caller hands up unchanged (it is none of the three sentinels the branch loop counts);
+    if the `n`-th read is the last one, the walk ends undisturbed.  `none` = the context's error. -/
+def iterErrCancelled (m : IterErr) (n : Nat) (t : PTree) : Option IterErr :=
+  if n < reads t then none else some (iterErr m t)
+
 /-- values in iteration order (what `Iterate` hands to a value handler when nothing is missing) -/
 def valuesP : PTree → Bytes → List (Bytes × Bytes)
   | .empty, _ => []
